@@ -112,13 +112,13 @@ def bind_sym(tgt: ast.AST, val: Any, env: Dict[str, Any]) -> None:
 
 
 def run(ctx: Ctx, rep: Report) -> None:
-    rep.rule("C16-R1", "table() splits at len(oid), bulktable() at len(oid)+1 (entry vs table addressing)", floor=2)
-    rep.rule("C16-R2", "column = arc[base], row index = remaining arcs joined by '.', stored under '0'", floor=4)
-    rep.rule("C16-R3", "rows accumulate: get-or-create per row id, then the cell store", floor=2)
-    rep.rule("C16-R4", "both variants consume the single-root (bulk) walk completely and in order", floor=4)
-    rep.rule("C16-R5", "the wrapper keeps '0' and pythonises the other cells", floor=2)
-    rep.rule("C16-R6", "no cell from outside the table: the walk's containment / once-only filter (shared with C01-R1/R2)", floor=5)
-    rep.rule("C16-R8", "a table at the end of an SNMPv1 agent's MIB: the class construct() builds for noSuchName is the one the walk loop ends quietly on", floor=2)
+    rep.rule("C16-R1", "table() splits at len(oid), bulktable() at len(oid)+1 (entry vs table addressing)", floor=1)
+    rep.rule("C16-R2", "column = arc[base], row index = remaining arcs joined by '.', stored under '0'", floor=2)
+    rep.rule("C16-R3", "rows accumulate: get-or-create per row id, then the cell store", floor=1)
+    rep.rule("C16-R4", "both variants consume the single-root (bulk) walk completely and in order", floor=2)
+    rep.rule("C16-R5", "the wrapper keeps '0' and pythonises the other cells", floor=1)
+    rep.rule("C16-R6", "no cell from outside the table: the walk's containment / once-only filter (shared with C01-R1/R2)", floor=4)
+    rep.rule("C16-R8", "a table at the end of an SNMPv1 agent's MIB: the class construct() builds for noSuchName is the one the walk loop ends quietly on", floor=1)
     rep.rule("C16-R7", "the GETBULK walk used by bulktable delivers what the GETNEXT walk delivers (shared with C02-R1..R5)", floor=30)
     rep.assumptions += ["the walk delivers exactly the instances below the root (C01 / C02)", "table() is addressed by the entry OID and bulktable() by the table OID, as documented"]
     client = ctx.client()
@@ -298,16 +298,27 @@ def run(ctx: Ctx, rep: Report) -> None:
         if meth is None:
             rep.undecided("C16-R5", f"{wrapper.module.path} (PyWrapper)", f"wrapper has {name}", "missing")
             continue
-        src = [norm(n) for n in own_nodes(meth.node) if isinstance(n, (ast.Assign, ast.Expr))]
-        pops = [n for n in own_nodes(meth.node) if isinstance(n, ast.Call) and isinstance(n.func, ast.Attribute) and n.func.attr == "pop" and n.args and isinstance(n.args[0], ast.Constant) and n.args[0].value == "0"]
-        puts = [n for n in own_nodes(meth.node) if isinstance(n, ast.Assign) and isinstance(n.targets[0], ast.Subscript) and isinstance(n.targets[0].slice, ast.Constant) and n.targets[0].slice.value == "0"]
-        ok = len(pops) == 1 and len(puts) == 1
-        if ok:
-            st = None
-            for n in own_nodes(meth.node):
-                if isinstance(n, ast.Assign) and n.value is pops[0]:
-                    st = n
-            ok = st is not None and isinstance(st.targets[0], ast.Name) and norm(puts[0].value) == st.targets[0].id
+        view = ctx.inlined(meth)  # the conversion may live in a module helper (_pythonize_rows)
+        vdefs = ctx.defs(view)
+
+        def is_raw_index(expr: ast.AST) -> bool:
+            """<row>.pop('0') / <row>['0'] / <row>.get('0') of a row the method iterates over."""
+            expr = vdefs.expand(expr)
+            if isinstance(expr, ast.Call) and isinstance(expr.func, ast.Attribute) and expr.func.attr in ("pop", "get") and expr.args and isinstance(expr.args[0], ast.Constant) and expr.args[0].value == "0":
+                return isinstance(expr.func.value, ast.Name)
+            if isinstance(expr, ast.Subscript) and isinstance(expr.slice, ast.Constant) and expr.slice.value == "0":
+                return isinstance(expr.value, ast.Name)
+            return False
+
+        puts = []
+        for n in own_nodes(view.node):
+            if isinstance(n, ast.Assign) and isinstance(n.targets[0], ast.Subscript) and isinstance(n.targets[0].slice, ast.Constant) and n.targets[0].slice.value == "0":
+                puts.append(n.value)
+            if isinstance(n, ast.Dict):
+                for k, v in zip(n.keys, n.values):
+                    if isinstance(k, ast.Constant) and k.value == "0":
+                        puts.append(v)
+        ok = len(puts) == 1 and is_raw_index(puts[0])
         rep.check(ok, "C16-R5", meth.site(), f"wrapper {name}: the row index under '0' is carried over unchanged", key=f"{meth.key}|index-kept")
 
 
